@@ -550,7 +550,17 @@ func (c *Ctx) Lockset(sp LockSpec) {
 		}
 		if fn.Parent() == nil {
 			if obj := fn.Object(); obj != nil && obj.Exported() {
-				return true, "exported"
+				// an exported method of an unexported type that is called inside
+				// the package is a helper of that package, not an entry point
+				helper := false
+				if recv := fn.Signature.Recv(); recv != nil && lf.callers > 0 {
+					if n := derefNamed(recv.Type()); n != nil && !n.Obj().Exported() {
+						helper = true
+					}
+				}
+				if !helper {
+					return true, "exported"
+				}
 			}
 			if lf.callers == 0 {
 				return true, "no in-package caller (reachable only from outside/interfaces)"
